@@ -247,6 +247,46 @@ def string_program(rng, cases):
     return "\n".join(lines) + "\n", meta
 
 
+def printed_program(rng, n):
+    """String literals passed directly to print! next to non-literal arguments: the bytes must come out as written
+    (in particular `%`, which means something to the C formatting function underneath)."""
+    lines = ["fn main() -> i32", "{", "\tvar n: i32 = 7;", "\tvar big: u64 = 18446744073709551615;", "\tvar c: char8 = 'B';",
+             "\tvar flag: bool = true;"]
+    expected = b""
+    values = {"n": b"7", "big": b"18446744073709551615", "flag": b"true"}
+    count = 0
+    for _ in range(n):
+        args = []
+        for _a in range(rng.randrange(1, 5)):
+            if rng.random() < 0.45:
+                v = rng.choice(sorted(values))
+                args.append(v)
+                expected += values[v]
+            else:
+                s = ""
+                for _c in range(rng.randrange(1, 9)):
+                    r = rng.random()
+                    if r < 0.35:
+                        ch = rng.choice(["%", "%d", "%s", "%%", "%n", "% ", "%5", "%c", "%x", "%lu", "%."])
+                        s += ch
+                        expected += ch.encode()
+                    elif r < 0.5:
+                        b = rng.choice([1, 9, 27, 37, 127, 128, 255, 92, 34])
+                        s += "\\x%02X" % b
+                        expected += bytes([b])
+                    else:
+                        ch = rng.choice("abc XYZ09:;,.{}()[]<>/#&*+-=_")
+                        s += ch
+                        expected += ch.encode()
+                args.append('"' + s + '"')
+                count += 1
+        lines.append("\tprint!(%s);" % ", ".join(args))
+        lines.append("\tprint!(\"\\n\");")
+        expected += b"\n"
+    lines += ["\treturn: 0", "}"]
+    return "\n".join(lines) + "\n", expected, count
+
+
 MALFORMED = [
     ("suffix_unknown", "var x = 12u7;", {141}), ("suffix_words", "var x = 123127312asd;", {141}),
     ("octal", "var x = 0777;", {141}), ("octal_zero", "var x = 00;", {141}), ("octal_o", "var x = 0o777;", {141}),
@@ -323,6 +363,26 @@ def run_case(case):
         results[0]["cov"] = {"string_literals": len(meta)}
         results[0]["sample"] = {"string_literal": meta[-1]["pieces"], "bytes": meta[-1]["expected"]}
         return results
+    if kind == "printed":
+        _, seed, idx, n = case
+        rng = common.rng_for(seed, PROP, "printed", idx)
+        src, expected, count = printed_program(rng, n)
+        k, r = compile_src(src)
+        replay = {"source": src, "expected_stdout_hex": expected.hex()}
+        if k != "resp" or r["status"] != "ok":
+            codes = sorted(set(e["code"] for e in r.get("errors", []))) if k == "resp" else str(k)
+            return {"verdict": VIOLATED, "sig": "print! of valid string literals not accepted: %s" % codes,
+                    "detail": r.get("errors") if k == "resp" else str(r), "replay": replay}
+        res = common.run_lli(r["ir"], timeout=60)
+        cov = {"printed_string_literals": count}
+        if res["stdout"] != expected:
+            got = res["stdout"]
+            pos = next((i for i in range(min(len(got), len(expected))) if got[i] != expected[i]), min(len(got), len(expected)))
+            return {"verdict": VIOLATED, "sig": "string literal printed next to other arguments comes out with different bytes",
+                    "detail": {"first_difference_at": pos, "expected": expected[max(0, pos - 12):pos + 12].decode("latin-1"),
+                               "observed": got[max(0, pos - 12):pos + 12].decode("latin-1"), "lli": res["status"]},
+                    "replay": replay, "cov": cov}
+        return {"verdict": HELD, "nt": "printed:%d:%d" % (n, count % 7), "cov": cov}
     if kind == "malformed":
         _, name, stmt, want = case
         src = "fn main()\n{\n\t%s\n}\n" % stmt
@@ -376,12 +436,15 @@ def main(tier, seed, replay=None):
         cases.append(("strings", seed, i, 25))
     for name, stmt, want in MALFORMED:
         cases.append(("malformed", name, stmt, want))
+    for i in range(20 if tier == "quick" else 400):
+        cases.append(("printed", seed, i, 12))
     for r in common.run_sharded(run_case, cases):
         run.feed(r)
     run.assumptions = [
         "value of a literal = its mathematical value in the written base (docs); negation applies to the magnitude",
         "out-of-range literals: only the presence of L1142 on the literal's line is asserted, the run-time value is unconstrained",
-        "strings are observed through |s| and s[i] as u8 (not through print! of the string, which would stop at NUL)",
+        "strings are observed through |s| and s[i] as u8 (not through print! of the string, which would stop at NUL); NUL-free literals are also "
+        "passed directly to print! between non-literal arguments and compared byte for byte on stdout",
     ]
     return run.finish(
         rule="integer cells = type x value (boundaries 0,1,max,max+1,|min|,|min|+1,2^32,2^64,2^127,2^128-1 and random widths) x spelling x typing mode "
